@@ -13,7 +13,7 @@
    WIRE: C15's float theorems are reused, hence its four standard-library axioms below. *)
 From Coq Require Import ZArith List Bool Reals.
 From Flocq Require Import Core IEEE754.BinarySingleNaN IEEE754.Binary IEEE754.Bits.
-From GV Require Import Lib.Str Gen.Facts Gen.StreamOps Model.StreamIR Model.StreamSem Model.Timeout
+From GV Require Import Lib.Str Gen.Facts Gen.FactsC05 Gen.StreamOps Model.StreamIR Model.StreamSem Model.Timeout
      Model.Deadline Model.ServerDeadline
      Proofs.C15Proofs Proofs.C05Proofs Proofs.C05WireProofs Proofs.C05ServerProofs.
 From GV Require Proofs.C05Examples.     (* non-vacuity examples, re-checked with the theorems *)
@@ -181,18 +181,35 @@ Proof. exact wire_value_at_send_partial. Qed.
 Print Assumptions C05_wire_value_at_send_partial.
 
 (* ---- server ---------------------------------------------------------------------------------- *)
+(* (10'') source facts (Gen/FactsC05.v, regenerated from server.py / utils.py on every run): the
+   handler runs inside `with deadline_wrapper, wrapper:` IN THIS ORDER, and DeadlineWrapper.start
+   with nothing remaining cancels the wrapper, then raises.  The model's answer for an expired
+   deadline is computed from these facts: with `wrapper` entered first the request task would cancel
+   itself and a suspending reply path would lose the answer; without the cancel the answer would be
+   UNKNOWN (second and third conjunct: the model is sensitive to both). *)
+Theorem C05_server_source_facts :
+  (handler_with_order = [CMDeadline; CMWrapper] /\
+   start_expired = [SA_bind_timeout_error; SA_cancel; SA_raise] /\
+   start_armed = [SA_callback_cancels; SA_call_later_timeout; SA_yield; SA_finally_timer_cancel]) /\
+  (forall rs, expired_status rs = StDeadline) /\
+  (expired_status_of [CMWrapper; CMDeadline] start_expired true = StNoAnswer /\
+   expired_status_of [CMWrapper; CMDeadline] start_expired false = StDeadline /\
+   (forall rs, expired_status_of handler_with_order [SA_bind_timeout_error; SA_raise] rs = StUnknown)).
+Proof. exact (conj source_order_facts (conj expired_status_deadline expired_status_other_orders)). Qed.
+Print Assumptions C05_server_source_facts.
+
 (* (11) a grpc-timeout value outside the grammar in ANY header: UNKNOWN, handler never started *)
 Theorem C05_server_invalid_timeout :
-  forall a hs h, Exists (fun v => ~ in_grammar v) (timeout_values hs) ->
-  serve a hs h = {| o_status := StUnknown; o_started := false; o_timer := None;
+  forall a hs h rs, Exists (fun v => ~ in_grammar v) (timeout_values hs) ->
+  serve a hs h rs = {| o_status := StUnknown; o_started := false; o_timer := None;
                     o_cancel_at := None; o_end_at := a |}.
 Proof. exact serve_invalid. Qed.
 Print Assumptions C05_server_invalid_timeout.
 
 (* (12) no grpc-timeout header: no timer, the handler is never interrupted *)
 Theorem C05_server_no_header_no_timer :
-  forall a hs h, timeout_values hs = [] ->
-  let o := serve a hs h in
+  forall a hs h rs, timeout_values hs = [] ->
+  let o := serve a hs h rs in
   o_timer o = None /\ o_cancel_at o = None /\ o_started o = true /\
   o_status o = final_status h (own_status (h_fin h)) /\ o_end_at o = fadd a (h_dur h).
 Proof. exact serve_no_header. Qed.
@@ -205,13 +222,13 @@ Print Assumptions C05_server_no_header_no_timer.
    cancellation or swallows it (and then returns / raises anything) -- unless it had already sent
    its trailers (final_status). *)
 Theorem C05_server_deadline :
-  forall a hs h, timeout_values hs <> [] -> Forall in_grammar (timeout_values hs) ->
+  forall a hs h rs, timeout_values hs <> [] -> Forall in_grammar (timeout_values hs) ->
   exists m ts,
     from_headers_timeout hs = Ok (Some m) /\
     (exists v, In v (timeout_values hs) /\ decode_timeout v = Ok m) /\
     (forall v x, In v (timeout_values hs) -> decode_timeout v = Ok x -> (Rnum m <= Rnum x)%R) /\
     py_add_float a m = Ok ts /\
-    let o := serve a hs h in
+    let o := serve a hs h rs in
     match time_remaining ts a with
     | None => o_status o = StDeadline /\ o_started o = false /\ o_timer o = None /\
               o_cancel_at o = None /\ o_end_at o = a
@@ -229,16 +246,16 @@ Theorem C05_server_deadline :
 Proof. exact serve_deadline. Qed.
 Print Assumptions C05_server_deadline.
 
-(* (14) already passed on arrival: a governing value of zero at every (finite, non-negative)
+(* (14) already passed on arrival, WHETHER OR NOT the reply path suspends (rs): a governing value of zero at every (finite, non-negative)
    arrival instant, and any deadline instant not after the arrival instant *)
 Theorem C05_server_expired_on_arrival :
-  (forall a hs h m, fin a = true -> (0 <= R64 a)%R ->
+  (forall a hs h rs m, fin a = true -> (0 <= R64 a)%R ->
      from_headers_timeout hs = Ok (Some m) -> finnum m = true -> Rnum m = 0%R ->
-     serve a hs h = {| o_status := StDeadline; o_started := false; o_timer := None;
+     serve a hs h rs = {| o_status := StDeadline; o_started := false; o_timer := None;
                        o_cancel_at := None; o_end_at := a |}) /\
-  (forall a hs h m ts, fin a = true -> fin ts = true -> (0 <= R64 ts <= R64 a)%R ->
+  (forall a hs h rs m ts, fin a = true -> fin ts = true -> (0 <= R64 ts <= R64 a)%R ->
      from_headers_timeout hs = Ok (Some m) -> py_add_float a m = Ok ts ->
-     serve a hs h = {| o_status := StDeadline; o_started := false; o_timer := None;
+     serve a hs h rs = {| o_status := StDeadline; o_started := false; o_timer := None;
                        o_cancel_at := None; o_end_at := a |}).
 Proof. exact (conj serve_zero_timeout serve_expired). Qed.
 Print Assumptions C05_server_expired_on_arrival.
@@ -246,8 +263,8 @@ Print Assumptions C05_server_expired_on_arrival.
 (* (15) reported as such: the handler's own TimeoutError (no cancellation by the deadline) is an
    application error (UNKNOWN), and DEADLINE_EXCEEDED is never answered without a grpc-timeout *)
 Theorem C05_server_status_truthful :
-  (forall a hs h, h_fin h = FRaiseTimeout -> h_trailers_first h = false ->
-     let o := serve a hs h in o_cancel_at o = None -> o_started o = true -> o_status o = StUnknown) /\
-  (forall a hs h, o_status (serve a hs h) = StDeadline -> timeout_values hs <> []).
+  (forall a hs h rs, h_fin h = FRaiseTimeout -> h_trailers_first h = false ->
+     let o := serve a hs h rs in o_cancel_at o = None -> o_started o = true -> o_status o = StUnknown) /\
+  (forall a hs h rs, o_status (serve a hs h rs) = StDeadline -> timeout_values hs <> []).
 Proof. exact (conj serve_own_timeout serve_deadline_status_needs_header). Qed.
 Print Assumptions C05_server_status_truthful.
